@@ -26,7 +26,8 @@ OK(e) ==
   /\ (nh = 4 => HeaderLinesOK(m.header[1], e.lines))
   \* "followed by exactly one line per instruction in assembly order"
   /\ Len(e.lines) = nh + Len(all) \/ (Len(all) = 0 /\ nh = 0 /\ e.lines = <<"">>)
-  /\ \A j \in 1..Len(all) : TokensMatch(LineToks(all[j]), e.tokens[nh + j])
+  \* (extended-instruction names apply to block instructions of functions; ids imported as a known set)
+  /\ \A j \in 1..Len(all) : TokensMatch(LineToksIn(all[j], m.ext_inst_imports), e.tokens[nh + j])
   \* "Reading the text back with the same vocabulary reconstructs the instruction stream exactly"
   /\ e.reread_ok /\ Len(e.reread) = Len(all) /\ \A j \in 1..Len(all) : SameModuloNaN(all[j], e.reread[j])
 
